@@ -153,7 +153,8 @@ def replay(col, item):
                                 real.close()
                                 raise Crash("after open")
                             if last == "save_write":
-                                return CrashingFile(real, 1 + seq % 5)
+                                # die after 0..4 write calls; an empty cache is dumped with a single write, so 0 must occur
+                                return CrashingFile(real, (seq % 5) if fs.info_cache else 0)
                         return real
                     FM.open = crashing_open
                     if last == "save_close":
@@ -175,7 +176,10 @@ def replay(col, item):
                         FM.shutil = saved["shutil"]
                         FM.__dict__.pop("open", None)
                     if not died:
+                        # the document was complete before the chosen write call: this replay no longer follows the
+                        # model's history (the save went through), so it is not judged further
                         col.bump("crash_point_not_reached")
+                        return
                 i = j - 1
             elif a == "crash":
                 fs = None
